@@ -67,6 +67,7 @@ func genTree(r *simcore.Rand, tier string) []NodeSpec {
 	}
 	var nodes []NodeSpec
 	depth := []int{}
+	heavy := r.Bool(0.15) // blocks with hundreds of logs: reorganisations drop more than 512 logs
 	mkTxs := func(parent int) []TxSpec {
 		// sometimes the same transactions as a sibling: the same tx hash on two forks
 		if r.Bool(0.3) {
@@ -76,7 +77,21 @@ func genTree(r *simcore.Rand, tier string) []NodeSpec {
 				}
 			}
 		}
+		// ... or as a sibling of the parent: the same tx hash at different heights on two forks
+		// (same hash only if the sender's nonce is the same there)
+		if parent >= 0 && r.Bool(0.2) {
+			gp := nodes[parent].Parent
+			for j := len(nodes) - 1; j >= 0; j-- {
+				if j != parent && nodes[j].Parent == gp && len(nodes[j].Txs) > 0 {
+					return append([]TxSpec{}, nodes[j].Txs...)
+				}
+			}
+		}
 		var txs []TxSpec
+		if heavy && r.Bool(0.6) {
+			// 150..400 logs from one call
+			txs = append(txs, TxSpec{From: r.Intn(nAccounts), Kind: 2, Val: uint64(149 + r.Intn(250))})
+		}
 		for n := r.Pick(2, 3, 3, 2); n > 0; n-- {
 			txs = append(txs, TxSpec{From: r.Intn(nAccounts), Kind: r.Pick(1, 1), To: r.Intn(nAccounts), Val: uint64(1 + r.Intn(1000))})
 		}
@@ -147,10 +162,10 @@ func genOps(r *simcore.Rand, k Knobs, nnodes int, tier string, crash bool) []Op 
 	ops = append(ops, Op{Kind: "insert", A: r.Intn(nnodes), B: 0, C: r.Intn(1000)})
 	for len(ops) < n {
 		a, c := r.Intn(1<<20), r.Intn(1000)
-		weights := []int{10, 4, 3, 2, 2, 2, 2, 1}
+		weights := []int{10, 4, 3, 2, 2, 2, 2, 1, 3}
 		if crash {
 			// more durable states to crash on: commits, restarts, freezes
-			weights = []int{10, 3, 2, 2, 3, 2, 4, 1}
+			weights = []int{10, 3, 2, 2, 3, 2, 4, 1, 1}
 		}
 		switch r.Pick(weights...) {
 		case 0:
@@ -180,6 +195,12 @@ func genOps(r *simcore.Rand, k Knobs, nnodes int, tier string, crash bool) []Op 
 		case 7:
 			if k.Scheme == rawdb.HashScheme && k.Snapshots {
 				ops = append(ops, Op{Kind: "snapcap"})
+			}
+		case 8:
+			// newPayload for a fork, then (usually) forkchoiceUpdated to it: one multi-block reorg
+			ops = append(ops, Op{Kind: "payload", A: a, C: c})
+			if r.Bool(0.7) {
+				ops = append(ops, Op{Kind: "setcanon", A: r.Intn(1 << 20)})
 			}
 		}
 	}
@@ -385,6 +406,7 @@ var treeFindings = func() map[string]bool {
 		// C39
 		"reboot-canon-gap:reorg-deletes-old-index-before-moving-head",
 		"reboot-hang:reset-inside-repair-locks-chainmu-twice",
+		"reboot-freezer-beyond-head:finalized-marker-above-head-after-interrupted-sethead",
 		"reboot-log-crit:pathdb-gap-between-state-and-state-history",
 		"reboot-canon-receipts-missing:unexecuted-sidechain-block-canonicalised",
 		"reboot-panic:reset-on-missing-head-block-dereferences-nil-current-block",
